@@ -73,7 +73,7 @@ Check(os, e) ==
     <<"C11/C13: a detached copy of the list (SearchParams.Clone) does not hold the mutated list",
         e.op # "spdet" \/ [i \in 1..Len(e.ret) |-> NormT(e.ret[i])] = FlatList(ListOp(os[e.h].params, e.n, e.a, e.b))>>,
     <<"C12: after SetSearch the list is not the urlencoded parse of the query",
-        ~(e.op = "set" /\ e.n = "search") \/ ~e.objs[e.h].r.hassp \/ NormL(e.objs[e.h].r.params) = ParseQ(e.objs[e.h].g.query)>>,
+        ~(e.op = "set" /\ e.n = "search") \/ ~e.objs[e.h].r.hassp \/ NormL(e.objs[e.h].r.params) = ParseQO(POpts, e.objs[e.h].g.query)>>,
     <<IF F21(e)
       THEN "C03: re-parsing the serialization differs from what the specification predicts [F21: the host was produced from an input containing one of the symbols U+2260 U+226E U+226F]"
       ELSE "C03: re-parsing the serialization differs from what the specification predicts",
